@@ -5,7 +5,7 @@ from mirsym.values import Int, Agg, Enum, Ref, Opaque, deep_copy, unit, mk_int
 from mirsym.executor import PyObj, Unsupported
 from mirsym.explore import check, Violation
 from mirsym.models import zbool, some, none, ok, err, deref
-from mirsym.models_coll import VecModel, ArcModel, MutexModel
+from mirsym.models_coll import VecModel, ArcModel, MutexModel, DequeModel
 from mirsym import hlib
 from props.ops import UF, val64
 from props.end import SenderStub
@@ -17,7 +17,10 @@ META = {
                    '(several outer rounds): each round folds exactly one delta per replica into the state, continues iff '
                    'condition && index < max, broadcasts (Continue, new state) / (Finished, initial state) exactly once '
                    'to every feedback replica, emits the final state followed by FlushAndRestart and restarts from the '
-                   'initial state. IterationEnd: one delta per round, the default one iff the body produced nothing. '
+                   'initial state. IterationEnd: one delta per round, the default one iff the body produced nothing. Replay and '
+                   'Iterate with the real IterationStateHandler: replay re-feeds the complete input every round, iterate feeds '
+                   'the output of round k into round k+1 and emits the last round downstream, the state lock is held from '
+                   'every FlushAndRestart until the new state is published. '
                    'The cross-thread part (every replica on every host reads exactly the state of round k-1 through the '
                    'state lock / barrier) is outside the technique.',
     'assumptions': ['every IterationEnd replica sends its delta of round k only after the feedback of round k-1 '
@@ -477,4 +480,193 @@ def TASKS(tier):     # noqa: F811
                        bounds='Replay::next with the real IterationStateHandler / IterationStateLock: %d outer iteration(s) x '
                               '<=%s elements, each replayed 1..%d rounds (leader feedback Continue*/Finished, states '
                               'symbolic)' % (outer, ml, mr), role='replay', opts={'covers': ['replayed']}, budget=300))
+    return ts
+
+
+# ------------------------------------------------------------------------------------ Iterate
+
+class IterEnv:
+    """environment of one Iterate replica: the outer input, the feedback link (output of the loop body) and the
+    leader's state feedback.  Causality: the body's output of round k exists only after Iterate has emitted the
+    FlushAndRestart of round k; the state update of round k only after the whole feedback of round k was delivered."""
+
+    def __init__(self, w, inputs, feedbacks, states):
+        self.w = w
+        self.inputs = [list(b) for b in inputs]          # batches of the outer input (all outer rounds, then Terminate)
+        self.feedbacks = [list(r) for r in feedbacks]    # per round: batches of the body output (last ends with F&R)
+        self.states = list(states)                       # per round: (kind, state)
+        self.round = 0                                   # rounds whose FlushAndRestart Iterate has emitted
+        self.fb_round = 0                                # round whose feedback is being delivered
+        self.state_round = 0
+        self.emitted_rounds = 0
+
+    def fb_avail(self):
+        return self.fb_round < len(self.feedbacks) and self.fb_round < self.emitted_rounds and bool(self.feedbacks[self.fb_round])
+
+    def state_avail(self):
+        return self.state_round < len(self.states) and self.state_round < self.fb_round + (0 if self.fb_avail() else 0) and \
+            self.state_round < self.fb_done()
+
+    def fb_done(self):
+        """number of rounds whose feedback has been delivered completely"""
+        n = 0
+        for r in range(len(self.feedbacks)):
+            if r < self.emitted_rounds and not self.feedbacks[r]:
+                n += 1
+            else:
+                break
+        return n
+
+    def msg(self, ex, batch):
+        new_batch = self.w.impls[(None, 'NetworkMessage')]['new_batch'][0]
+        return ex.call_function(new_batch, [VecModel([deep_copy(e) for e in batch]), hlib.coord(self.w, 9, 0, 0)])
+
+    def take(self, ex, which):
+        if which == 'input':
+            return self.msg(ex, self.inputs.pop(0))
+        if which == 'feedback':
+            b = self.feedbacks[self.fb_round].pop(0)
+            if not self.feedbacks[self.fb_round]:
+                self.fb_round += 1
+            return self.msg(ex, b)
+        kind, st = self.states[self.state_round]
+        self.state_round += 1
+        irv = dict(self.w.src.enum_variants('IterationResult'))
+        new_single = self.w.impls[(None, 'NetworkMessage')]['new_single'][0]
+        item = Agg('tuple', None, [Enum('IterationResult', kind, irv[kind], []), st])
+        return ex.call_function(new_single, [hlib.se('Item', item), hlib.coord(self.w, 4, 0, 0)])
+
+
+class IterRx(PyObj):
+    name = 'NetworkReceiver'
+
+    def __init__(self, env, which):
+        self.env = env
+        self.which = which
+
+    def avail(self):
+        e = self.env
+        if self.which == 'input':
+            return bool(e.inputs)
+        if self.which == 'feedback':
+            return e.fb_avail()
+        return e.state_round < len(e.states) and e.state_round < e.fb_done()
+
+    def trait_call(self, ex, trait, method, args):
+        e = self.env
+        if method == 'try_recv':
+            if self.avail() and ex.choose(2, 'try_recv sees a message') == 1:
+                return ok(e.take(ex, self.which))
+            return err(Enum('channel::TryRecvError', 'Empty', 0, []))
+        if method == 'recv':
+            if not self.avail():
+                raise Violation('Iterate blocks on its %s channel although nothing can arrive there (stuck)' % self.which)
+            return ok(e.take(ex, self.which))
+        if method == 'select':
+            other = deref(args[1])
+            c = [r for r in (self, other) if r.avail()]
+            if not c:
+                raise Violation('Iterate selects on %s/%s although nothing can arrive (stuck)' % (self.which, other.which))
+            pick = c[ex.choose(len(c), 'select') if len(c) > 1 else 0]
+            m = e.take(ex, pick.which)
+            return Enum('channel::SelectResult', 'A' if pick is self else 'B', 0 if pick is self else 1, [ok(m)])
+        return NotImplemented
+
+
+def iterate_harness(w, max_len, max_rounds, outer=1):
+    nxt = w.impls[('Operator', 'Iterate')]['next'][0]
+    hlib.check_se_table(w)
+
+    def h(ex):
+        # outer input: `outer` iterations, then Terminate; each element its own batch
+        script = hlib.gen_script(ex, outer, max_len, 'I', payload=lambda ex, k: Int('u64', k))
+        inputs = [[e] for e in script]
+        feedbacks, states, rounds = [], [], []
+        nid = 100
+        for o in range(outer):
+            r = 1 + ex.choose(max_rounds, 'rounds')
+            rounds.append(r)
+            for k in range(r):
+                n = ex.choose(3, 'body output size')
+                fb = [hlib.se('Item', Int('u64', nid + j)) for j in range(n)] + [hlib.se('FlushAndRestart')]
+                nid += 10
+                feedbacks.append([[e] for e in fb])
+                states.append(('Continue' if k < r - 1 else 'Finished', ex.fresh_int('u64', 'state_%d_%d' % (o, k))))
+        feedbacks_copy = [[list(b) for b in f] for f in feedbacks]
+        env = IterEnv(w, inputs, feedbacks, states)
+        lock = hlib.mk_struct(w, 'IterationStateLock', generation=MutexModel(Int('usize', 0)), cond_var=Opaque('Condvar'))
+        lock_holder = [lock]
+        handle = StateHandleStub(lock_holder)
+        sh = hlib.mk_struct(w, 'IterationStateHandler', coord=hlib.coord(w, 2, 0, 0), new_state_receiver=some(IterRx(env, 'state')),
+                            leader_block_id=Int('u64', 4), is_local_leader=True, num_local_replicas=Int('usize', 1),
+                            state_ref=handle, state_barrier=ArcModel(MutexModel(None)), state_lock=ArcModel(slot=lock_holder))
+        outp = SenderStub('output')
+        it = hlib.mk_struct(w, 'Iterate', coord=hlib.coord(w, 2, 0, 0), state=sh, input_receiver=some(IterRx(env, 'input')),
+                            feedback_receiver=some(IterRx(env, 'feedback')), feedback_end_block_id=ArcModel(MutexModel(Int('usize', 7))),
+                            input_block_id=Int('u64', 1), output_sender=some(outp), output_block_id=ArcModel(MutexModel(Int('usize', 8))),
+                            content=DequeModel([]), input_stash=DequeModel([]), feedback_content=DequeModel([]),
+                            input_finished=False)
+        holder = [it]
+        out = []
+        for _ in range(40 * (max_rounds + 1) * outer + 40):
+            el = ex.call_function(nxt, [Ref(holder, 0)])
+            out.append(el)
+            if el.variant == 'FlushAndRestart':
+                env.emitted_rounds += 1
+            if el.variant == 'Terminate':
+                break
+        else:
+            raise Violation('Iterate does not terminate', hlib._wit(ex))
+        sx = lambda: {'input': [repr(e) for e in script], 'rounds': rounds,
+                      'feedback': [[repr(e) for b in f for e in b] for f in feedbacks_copy],
+                      'output': [repr(e) for e in out],
+                      'emitted_downstream': [[repr(e) for e in b] for _, b in outp.sent]}
+        ins = hlib.split_iterations(script)
+        want, want_out = [], []
+        ri = 0
+        for o in range(outer):
+            want += ins[o] + [hlib.se('FlushAndRestart')]
+            for k in range(rounds[o]):
+                fb = [e for b in feedbacks_copy[ri] for e in b]
+                if k < rounds[o] - 1:
+                    want += fb
+                else:
+                    want_out.append(fb)
+                ri += 1
+        want.append(hlib.se('Terminate'))
+        ids = lambda seq: [(e.variant, e.fields[0].v if e.variant == 'Item' else None) for e in seq]
+        if ids(out) != ids(want):
+            raise Violation('Iterate feeds the loop body %s, expected the input in round 1 and the output of round k in round '
+                            'k+1: %s' % (ids(out), ids(want)), hlib._wit(ex), sx())
+        sent = [b for _, b in outp.sent]
+        got_out = [b for b in sent if not (len(b) == 1 and b[0].variant == 'Terminate')]
+        if [ids(b) for b in got_out] != [ids(b) for b in want_out]:
+            raise Violation('Iterate emits %s downstream, expected the elements of the last round of each loop: %s' %
+                            ([ids(b) for b in got_out], [ids(b) for b in want_out]), hlib._wit(ex), sx())
+        if not sent or [e.variant for e in sent[-1]] != ['Terminate']:
+            raise Violation('Iterate did not forward Terminate to its output block', hlib._wit(ex), sx())
+        if len(handle.sets) != len(states):
+            raise Violation('%d state updates published for %d rounds' % (len(handle.sets), len(states)), hlib._wit(ex), sx())
+        for (st, g), (_, want_st) in zip(handle.sets, states):
+            check(ex, st.z() == want_st.z(), 'state published to the loop body is not the one received from the leader', sx)
+            if ex.concretize(g) % 2 != 1:
+                raise Violation('state published while the state lock is not held', hlib._wit(ex), sx())
+        if any(r > 1 for r in rounds):
+            hlib.cover(ex, 'several_rounds')
+        return sx()
+
+    return h
+
+
+_replay_tasks = TASKS
+
+
+def TASKS(tier):     # noqa: F811
+    ts = _replay_tasks(tier)
+    for ml, mr, outer in ([(2, 2, 1), (1, 1, 2)] if tier == 'quick' else [(2, 3, 1), (1, 1, 2)]):
+        ts.append(Task('iterate_l%d_r%d_o%d' % (ml, mr, outer), 'iterate_harness', {'max_len': ml, 'max_rounds': mr, 'outer': outer},
+                       bounds='Iterate::next with the real IterationStateHandler: %d outer iteration(s) x <=%d input items, 1..%d '
+                              'rounds, body output of 0..2 items per round, every interleaving of input / feedback / state '
+                              'messages that respects causality, try_recv seeing or missing pending feedback' % (outer, ml, mr),
+                       role='iterate', opts={'covers': ['several_rounds']}, budget=300))
     return ts
